@@ -327,10 +327,32 @@ def r3(ctx):
             if isinstance(c.func, ast.Call) and isinstance(c.func.func, ast.Subscript):
                 dyn.append((fi, c.func, c.func.func, []))
     ctx.check(not bad, "C14.R3", "%s:deserialize_value" % M, "no eval/exec/pickle/import and no attribute access by a stream-derived name in the decoder graph", witness=bad)
-    ctx.expect("C14.R3", "table-dispatch call sites in the decoder", len(dyn), 2)
     dv = ctx.fn("%s:deserialize_value" % M)
     cfg = cfg_of(dv)
     from .common import sym_text
+    # the object that decodes itself is an instance made by *calling* the registered class (so that __init__ has materialised the
+    # field defaults): a bare __new__ leaves class-level placeholders in every field the stream does not assign
+    from .common import sym_expr as _sx
+    from engine.defuse import defuse_of as _du
+    for c in walk_own(dv.node):
+        if isinstance(c, ast.Call) and isinstance(c.func, ast.Attribute) and c.func.attr == "deserialize" and isinstance(c.func.value, ast.Name):
+            node = cfg.node_of(c)
+            defs = _du(dv).reaching(c.func.value.id, node.id)
+            okc = bool(defs)
+            wit = []
+            for d in defs:
+                v = d[1]
+                wit.append(norm(v) if isinstance(v, ast.AST) else str(v)[:40])
+                if not (isinstance(v, ast.Call) and not v.args and not v.keywords):
+                    okc = False
+                    continue
+                f = _sx(dv, v.func, cfg.nodes[d[0]] if d[0] != "ENTRY" else node) if isinstance(v.func, ast.Name) else v.func
+                if not (isinstance(f, ast.Subscript) and norm(f.value) == "registry"):
+                    okc = False
+            ctx.check(okc, "C14.R3", dv, "the decoded object is created by calling the registered class (registry[type_id]())",
+                      "an instance made without __init__ keeps class-level placeholders in the fields the stream does not assign: the result is not composed of supported and registered types",
+                      witness=wit, line=c.lineno)
+    ctx.expect("C14.R3", "table-dispatch call sites in the decoder", len(dyn), 2)
     for (fi, c, fexpr, defsites) in dyn:
         tab = norm(fexpr.value)
         key = norm(fexpr.slice)
